@@ -371,6 +371,125 @@ def crash_histories(tier):
     return hs
 
 
+# ------------------------------------------------------------------ purge tool
+
+def purge_histories():
+    """(history of the purged store X, history of the bystander store Y).
+    ('rm', run, tgt, alg) removes the catalogue entries of that update."""
+    u = lambda r, a, c: (r, 'A', a, c)
+    xs = [
+        [u(1, 'a', 'c0')],
+        [u(1, 'a', 'c0'), u(1, 'a', 'c1')],                      # overwritten key: c0 orphaned
+        [u(1, 'a', 'c0'), u(2, 'a', 'c0'), u(1, 'a', 'c1')],      # shared content, one owner moved on
+        [u(1, 'a', 'c0'), u(1, 'b', 'c1'), ('rm', 1, 'A', 'b')],  # removed entry: c1 orphaned
+        [u(1, 'a', ('c0', 'c1')), u(1, 'a', ('c1', 'c2'))],
+    ]
+    ys = [
+        [u(1, 'a', 'c3')],
+        [u(1, 'a', 'c0'), u(1, 'b', 'c3')],                      # shares content c0 with X
+        [u(1, 'a', 'c3'), u(1, 'a', 'c4')],                      # has an orphan of its own
+    ]
+    return [(x, y) for x in xs for y in ys]
+
+
+def do_op(op):
+    import dawgie.db
+    if op[0] == 'rm':
+        _rm, run, tgt, alg = op
+        dawgie.db.remove(run, tgt, 't', alg, 's', 'x')
+        return None
+    return do_update(op)
+
+
+def store_view(root):
+    """(catalogue prime table, files) of the store at root, read from disk"""
+    from dawgie.db.shelve.state import DBI
+    import dawgie.db
+    open_at(root)
+    prime = dict(DBI().tables.prime)
+    dawgie.db.close()
+    files = sorted(os.listdir(os.path.join(root, 'dbs')))
+    return prime, files
+
+
+def work_purge(args):
+    tier, seed, hx, hy = args
+    import dawgie.db
+    from . import world
+
+    ctx = common.Ctx('C07', tier, seed, LEVEL)
+    rep = {'purged_store_ops': [list(o) for o in hx], 'other_store_ops': [list(o) for o in hy],
+           'op': 'python -m dawgie.db.tools.purge --context-db-path X/db --context-data-dbs X/dbs ...'}
+    roots = {}
+    for name, hist in (('X', hx), ('Y', hy)):
+        w = world.StoreWorld('purge/' + name)
+        for op in hist:
+            do_op(op)
+        w.as_foreman()
+        dawgie.db.close()
+        roots[name] = w.root
+    before = {n: in_child(lambda n=n: store_view(roots[n])) for n in roots}
+
+    def tool():
+        import runpy
+        import logging
+        # the process environment (dawgie.context defaults) names store Y; the
+        # command line names store X
+        import dawgie.context as c
+        y, x = roots['Y'], roots['X']
+        world.install_store_seams()
+        c.db_impl, c.db_name = 'shelve', 'verif'
+        c.db_path = c.db_rotate_path = os.path.join(y, 'db')
+        c.data_dbs, c.data_stg, c.data_log = (os.path.join(y, d) for d in ('dbs', 'stg', 'logs'))
+        os.environ['DAWGIE_DOCKERIZED_AE_GIT_REVISION'] = 'verif'
+        sys.argv = ['purge.py', '--context-db-impl', 'shelve', '--context-db-name', 'verif',
+                    '--context-db-path', os.path.join(x, 'db'),
+                    '--context-data-dbs', os.path.join(x, 'dbs'),
+                    '--context-data-stg', os.path.join(x, 'stg'),
+                    '--context-data-log', os.path.join(x, 'logs')]
+        try:
+            runpy.run_module('dawgie.db.tools.purge', run_name='__main__')
+        except SystemExit as e:
+            return ('exit', e.code)
+        finally:
+            try:
+                dawgie.db.close()
+            except Exception:  # noqa
+                pass
+            logging.shutdown()
+        return ('exit', 0)
+
+    res = in_child(tool)
+    ctx.count('purges')
+    if not res or res[0] == 'EXC':
+        ctx.violation('C07/purge-tool-raises', f'purge tool failed: {res}', rep)
+        return ctx.export()
+    after = {n: in_child(lambda n=n: store_view(roots[n])) for n in roots}
+    for n in ('X', 'Y'):
+        if not after[n] or after[n][0] == 'EXC':
+            ctx.violation(f'C07/purge/store-{n}-does-not-open', f'{after[n]}', rep)
+            continue
+        prime, files = after[n]
+        for k, v in sorted(prime.items()):
+            if v not in files:
+                ctx.violation(f'C07/dangling-reference/after-purge/{"purged" if n == "X" else "other"}-store',
+                              f'store {n}: catalogue entry {k} -> {v}: no such file '
+                              f'(files before {before[n][1]}, after {files})', rep)
+                break
+        if prime != before[n][0]:
+            ctx.violation(f'C07/purge-changed-catalogue/{n}', f'{before[n][0]} -> {prime}', rep)
+    # the tool's own contract on the store it was pointed at: unreferenced
+    # files go (identical content kept once and only while referenced)
+    if after['X'] and after['X'][0] != 'EXC':
+        prime, files = after['X']
+        if prime and sorted(set(prime.values())) != files:
+            ctx.violation('C07/purge/unreferenced-file-left-in-purged-store',
+                          f'files {files}, referenced {sorted(set(prime.values()))}', rep)
+    for r in roots.values():
+        shutil.rmtree(r, ignore_errors=True)
+    return ctx.export()
+
+
 def run(ctx):
     from . import world
     world.validate_digest_seam(common.scratch_root())
@@ -386,6 +505,8 @@ def run(ctx):
         ctx.merge(r)
         states.update(r['outcomes'])
         ctx.sample(r['sample'])
+    for r in common.pmap(work_purge, [(ctx.tier, ctx.seed, hx, hy) for hx, hy in purge_histories()]):
+        ctx.merge(r)
     c = ctx.counters
     ctx.assumptions += [
         'process-crash model: system calls completed before the crash persist, user-space buffers are lost (os._exit)',
@@ -397,7 +518,8 @@ def run(ctx):
         'distinct_nontrivial': c.get('crash_points', 0),
         'rule': f'crash-free: every sequence of <= {depth} updates over the alphabet (8 quick / 16 thorough ops); '
                 'plus every pair of updates of two-value state vectors over 3 contents; crash: every file-system call index of the last update of each selected history '
-                f'({len(crash_histories(ctx.tier))} histories); distinct_nontrivial = crash points injected',
+                f'({len(crash_histories(ctx.tier))} histories); purge tool: every pair of {len(purge_histories())} (purged store history, bystander store history) with the real __main__ block; distinct_nontrivial = crash points injected',
+        'purge_runs': c.get('purges', 0),
         'crash_histories': c.get('crash_histories', 0),
         'crash_points': c.get('crash_points', 0),
         'crash_free_histories': c.get('histories', 0),
